@@ -671,7 +671,56 @@ def replay_witnesses(ctx):
             one_pair(ctx, t1, t2, True, [], [], [], corr=False)
 
 
+# ---------------------------------------------------------------------------
+# source tie: the same tie as C02's (harness/translate/diffdispatch.py regenerates DeepDiff._diff and the comparers from the current
+# deepdiff/diff.py; coq/srctie/DiffGenEquiv.v proves them equal to Diff/DiffModel.v, the model of C03's theorems).  The search for a
+# differing input is C02's (generated vs hand model inside Coq), restricted to C03's positional configuration; the pairs found are
+# judged by C03's own oracle (recursive definition) and correspondence.
+# ---------------------------------------------------------------------------
+from harness.props import c02 as _c02
+
+SOURCE_TIES = _c02.SOURCE_TIES
+TIE_STATE = {"decided": False}
+
+
+def on_source_tie_break(ctx, name, rec):
+    if name != "diffdispatch":
+        return {"searched": "nothing (unknown tie)"}
+    res, differing = _c02.tie_search(ctx, rec, cfgs=((True, 0, True), (True, 0, False)))
+    if not differing:
+        return res
+    cm, cs, css, judged = [], [], [], []
+    f0, b0 = len(ctx.failures), len(ctx.breaks)
+    for (a, b, cfg) in _c02.tie_select(differing):
+        t1, t2 = stable_order(a), stable_order(b)
+        ctx.count("pairs:source_tie_differing_pair")
+        for ip in (True, False):
+            one_pair(ctx, t1, t2, ip, cm, cs, css)
+        judged.append({"t1": repr(a), "t2": repr(b)})
+    hdr = D.MODEL_HDR_M + "\nFrom DD Require Import Diff.Spec Diff.DiffVerbose."
+    ctx.coq_cases("c03tie_m", hdr, [build(x) for x in cm], shard=150, label="source_tie_model_vs_impl")
+    ctx.coq_cases("c03tie_s", hdr, [build(x) for x in cs], shard=150, label="source_tie_coqspec_vs_impl")
+    res["first_differing"] = judged
+    res["judged"] = {"new_oracle_failures": len(ctx.failures) - f0, "new_breaks": len(ctx.breaks) - b0}
+    if len(ctx.failures) > f0 or len(ctx.breaks) > b0:
+        TIE_STATE["decided"] = True
+    return res
+
+
 def run(ctx):
+    # a source tie that is not intact (and whose search found no judged pair) escalates the streams to thorough size
+    if ctx.tie_broken("diffdispatch") and not TIE_STATE["decided"] and not ctx.thorough:
+        ctx.count("escalated_by_broken_source_tie")
+        tier = ctx.tier
+        ctx.tier = "thorough"            # every size below is chosen through ctx.thorough
+        try:
+            return _run(ctx)
+        finally:
+            ctx.tier = tier
+    return _run(ctx)
+
+
+def _run(ctx):
     pairs = small_pairs(ctx)
     ctx.count("pairs:small_universe", len(pairs))
     rnd = random_pairs(ctx, 40000 if ctx.thorough else 7000)
